@@ -375,6 +375,10 @@ def main():
                 "C01_rrule_strictly_increasing_headline_partial": "coarse_guard_all",
                 "C01_rrule_nodup_headline_partial": "coarse_guard_all",
                 "C01_rrule_total_headline_partial": "coarse_guard_all: constructor accepts, iteration raises nothing",
+                "C01_rrule_valid_instants_headline_partial": "coarse_guard_all: every yielded instant is a "
+                    "representable day that satisfies the rule, with a time of the rule's time set, >= dtstart",
+                "C01_rrule_complete_headline_partial": "coarse_guard_all for the larger fuel: a run that stopped for a "
+                    "reason other than fuel has yielded the specification's whole sequence (up to limit)",
                 "C01_rrule_iter_correct_subdaily_stream_all_partial": "sfam_all: HOURLY/MINUTELY/SECONDLY, no "
                     "BYSETPOS, no BYEASTER, BYWEEKNO in range: same stream",
                 "C01_rrule_iter_correct_coarse_partial": "the same with BYDAY without numeric prefix under WEEKLY/"
